@@ -45,6 +45,24 @@ def replay(pid, path):
     payload = json.load(open(path))
     registry = pipeline.load_contracts()
     repo = Repo()
+    case = payload.get("case") or (payload.get("replay") if isinstance(payload.get("replay"), dict) and "pickle" in payload.get("replay", {}) else None)
+    if case and "pickle" in case:
+        import base64, pickle, random
+        from . import exproracle as xo
+        concrete.y0mod("y0.dsl")
+        con = registry[case["function"]]
+        args = pickle.loads(base64.b64decode(case["pickle"]))
+        try:
+            out = ("return", con.call_real(args))
+        except Exception as e:
+            out = ("raise", type(e).__name__, str(e))
+        models = [xo.Model(xo.NAMES, s) for s in (1, 2, 3)]
+        why = con.judge(args, out, models)
+        print(json.dumps({"args": {k: str(v) for k, v in args.items()}, "outcome": [out[0], str(out[1])], "now": why}, indent=1))
+        if why and why != "pre":
+            print(f"VIOLATION property={pid} replay={path}")
+            return 1
+        return 0
     if "replay" in payload and "model" in payload["replay"]:
         con = registry[payload["function"]]
         r = payload["replay"]
